@@ -17,7 +17,7 @@ from __future__ import annotations
 import ast
 
 from .. import astutil as A
-from ..alg import Closure, Interp, Obj, Poly, Undecided
+from ..alg import RaisedInFragment, Closure, Interp, Obj, Poly, Undecided
 from ..dep import FlowDeps
 
 EXPLANATION = (
@@ -358,7 +358,7 @@ def _namespaces(ctx, rid, pr):
             "channels": [
                 {"name": "c1", "samples": [{"name": "s1", "data": [Poly.atom("d")], "modifiers": [{"name": "m1", "type": "normsys", "data": Obj("md")}, {"name": "m2", "type": "histosys", "data": Obj("md2")}]},
                                            {"name": "s2", "data": [Poly.atom("e")], "modifiers": [{"name": "m3", "type": "lumi", "data": None}]}]},
-                {"name": "c2", "samples": [{"name": "s1", "data": [Poly.atom("f")], "modifiers": [{"name": "m1", "type": "normsys", "data": Obj("md")}]}]},
+                {"name": "c2", "samples": [{"name": "s1", "data": [Poly.atom("f")], "modifiers": [{"name": "m1", "type": "normsys", "data": Obj("md")}, {"name": "m2", "type": "normsys", "data": Obj("md3")}]}]},  # m2 is histosys in c1 and normsys here (one parameter, two types)
             ],
             "measurements": [{"name": "meas1", "config": {"poi": "m1", "parameters": [{"name": "m1", "inits": [Poly.const(1)]}, {"name": "m2", "fixed": True}]}}, {"name": "meas2", "config": {"poi": "m1", "parameters": []}}],
             "observations": [{"name": "c1", "data": [Poly.atom("o1")]}, {"name": "c2", "data": [Poly.atom("o2")]}],
@@ -367,7 +367,7 @@ def _namespaces(ctx, rid, pr):
 
     def run_op(**opts):
         wsd = mk()
-        attrs = {"modifiers": [("m1", "normsys"), ("m2", "histosys"), ("m3", "lumi")], "samples": ["s1", "s2"], "channels": ["c1", "c2"], "measurement_names": ["meas1", "meas2"]}
+        attrs = {"modifiers": [("m1", "normsys"), ("m2", "histosys"), ("m2", "normsys"), ("m3", "lumi")], "samples": ["s1", "s2"], "channels": ["c1", "c2"], "measurement_names": ["meas1", "meas2"]}
         env = {"self": wsd, "exceptions": Obj("exc")}
         for p in A.params_of(pr.node):
             if p != "self":
@@ -383,6 +383,7 @@ def _namespaces(ctx, rid, pr):
             "samples": sorted({s["name"] for c in spec["channels"] for s in c["samples"]}),
             "modifiers": sorted({m["name"] for c in spec["channels"] for s in c["samples"] for m in s["modifiers"]}),
             "types": sorted({m["type"] for c in spec["channels"] for s in c["samples"] for m in s["modifiers"]}),
+            "modifier cells": sorted(f"{c['name']}/{s['name']}/{m['name']}:{m['type']}" for c in spec["channels"] for s in c["samples"] for m in s["modifiers"]),
             "parameters": sorted({p["name"] for me in spec["measurements"] for p in me["config"]["parameters"]}),
             "poi": sorted({me["config"]["poi"] for me in spec["measurements"]}),
             "measurements": [me["name"] for me in spec["measurements"]],
@@ -396,6 +397,7 @@ def _namespaces(ctx, rid, pr):
         ("prune channel", dict(prune_channels=["c2"]), {"channels": ["c1"], "observations": ["c1"]}),
         ("prune modifier", dict(prune_modifiers=["m2"]), {"modifiers": ["m1", "m3"], "parameters": ["m1"], "types": ["lumi", "normsys"]}),
         ("prune modifier type", dict(prune_modifier_types=["lumi"]), {"types": ["histosys", "normsys"], "modifiers": ["m1", "m2"]}),
+        ("prune modifier type shared name", dict(prune_modifier_types=["histosys"]), {"types": ["lumi", "normsys"], "modifier cells": ["c1/s1/m1:normsys", "c1/s2/m3:lumi", "c2/s1/m1:normsys", "c2/s1/m2:normsys"]}),
         ("prune sample", dict(prune_samples=["s2"]), {"samples": ["s1"], "modifiers": ["m1", "m2"], "types": ["histosys", "normsys"]}),
         ("prune measurement", dict(prune_measurements=["meas2"]), {"measurements": ["meas1"]}),
     ]
@@ -403,10 +405,13 @@ def _namespaces(ctx, rid, pr):
     for label, opts, expect in cases:
         try:
             got = names(run_op(**opts))
+        except RaisedInFragment as e:
+            ctx.violated(rid, pr, f"_prune_and_rename [{label}]", f"{label}: a selection that names items present in the workspace is refused with {e.exc_name}", expected=str(expect), found=f"raise {e.exc_name}")
+            continue
         except (Undecided, KeyError, TypeError, IndexError) as e:
             ctx.unrecognised(rid, pr, f"_prune_and_rename [{label}]", f"not interpretable: {type(e).__name__}: {e}")
             continue
-        want = dict(base)
+        want = {k: v for k, v in base.items() if k != "modifier cells"}
         want.update(expect)
         diff = {k: (got[k], want[k]) for k in want if got[k] != want[k]}
         if not diff:
